@@ -26,6 +26,10 @@ type confineSpec struct {
 	allow map[string]string
 	// entry points accepted as known-offending are not listed here: they are reported.
 	exportedAreRoots bool
+	// markers: functions at which the backward traversal stops; each is reported
+	// as an entry point with the given reason (keeps report keys few and stable
+	// when many public entry points funnel through one internal function).
+	markers map[*ssa.Function]string
 }
 
 type confineResult struct {
@@ -65,6 +69,9 @@ func (c *Ctx) Confine(sp confineSpec) *confineResult {
 				continue
 			}
 			next[caller] = fn
+			if _, isMarker := sp.markers[caller]; isMarker {
+				continue
+			}
 			if sp.exportedAreRoots && isExportedAPI(caller) {
 				continue // an exported entry point is a root already: its callers are arbitrary user code
 			}
@@ -82,7 +89,9 @@ func (c *Ctx) Confine(sp confineSpec) *confineResult {
 			continue
 		}
 		why := ""
-		if a, ok := asyncInto[fn]; ok {
+		if m, ok := sp.markers[fn]; ok {
+			why = m
+		} else if a, ok := asyncInto[fn]; ok {
 			why = a
 		} else if sp.exportedAreRoots && isExportedAPI(fn) {
 			why = "exported API (callable from any goroutine)"
